@@ -766,57 +766,68 @@ def part_cfg(ctx, n):
                  sample=(r["kind"] == 2 and not dry and "malformed" not in tags and len(ctx.samples) < 4))
 
     bad = par_eval(ctx, "c14_cfg", "cfg_case", coq_cases,
-                   ["cfg_model_ok", "cfg_spec_ok", "cfg_spec_ok_mod_nl", "cfg_guard_unique"], chunk=50)
+                   ["cfg_model_ok", "cfg_spec_ok", "cfg_spec_ok_mod_nl", "cfg_guard_unique", "cfg_dupline_predicted", "cfg_inline_predicted"], chunk=50)
     for i in bad["cfg_model_ok"]:
         m = meta[i]
         ctx.mismatch("SetupCfgWriter.write vs Model.Manifest.cfg_write",
                      f"text={m['text']!r} names={m['res']['names']} deps={m['deps']} dry={m['dry']}: observed kind={m['res']['kind']} "
                      f"after={m['after']!r} exc={m['res']['exc']}", {"kind": "cfg", "text": m["text"], "deps": m["dep_keys"], "dry_run": m["dry"]})
     spec_bad, modnl_bad, dup = set(bad["cfg_spec_ok"]), set(bad["cfg_spec_ok_mod_nl"]), set(bad["cfg_guard_unique"])
+    not_dup_pred, not_inline_pred = set(bad["cfg_dupline_predicted"]), set(bad["cfg_inline_predicted"])
     for i, m in enumerate(meta):
         if m["malformed"]:
             continue
         replay = {"kind": "cfg", "text": m["text"], "deps": m["dep_keys"], "dry_run": m["dry"]}
         info, text = m["info"], m["text"]
+        after = m["after"]
         inline = info["form"] == "inline"
         lines = nl_split(text)
-        glued = info["kref"] is not None and info["kref"] == len(lines) - 1      # last dependency line has no newline
         impl_c, ref_c = sorted({canon(x) for x in m["res"]["names"]}), sorted({canon(x) for x in m["ref_names"]})
-        explained = None
-        if inline:
-            explained = "kf_setupcfg_inline_list"
-        elif i in dup:
-            explained = "kf_setupcfg_dupline"
-        elif glued:
-            explained = "kf_setupcfg_no_final_newline"
+        # A known-finding class is assigned only when the OBSERVED output is the one the class predicts (REVIEW_B item 13):
+        #  inline list  : the key line carries the value and now ends with `, dep1,[,dep2,]` (model's comma branch);
+        #  dupline      : the new lines follow the first, EARLIER line with the same stripped text as the last list line;
+        #  no final nl  : the last list line was the unterminated last line and the first requirement is glued to it.
+        inline_seen = inline and not m["dry"] and i not in not_inline_pred
+        if inline and m["dry"] and m["res"]["names"] == [] and len(m["ref_names"]) >= 2 and i not in set(bad["cfg_model_ok"]):
+            inline_seen = True    # dry run: nothing on disk to compare; the class predicts a store without names, and the model agrees
+        dup_seen = (i in dup) and not m["dry"] and i not in not_dup_pred
+        glued_seen = (info["kref"] is not None and info["kref"] == len(lines) - 1 and not m["dry"]
+                      and after.startswith(text) and len(after) > len(text) and after[len(text)] not in "\r\n")
+        explained = "kf_setupcfg_inline_list" if inline_seen else "kf_setupcfg_dupline" if dup_seen else \
+            "kf_setupcfg_no_final_newline" if glued_seen else None
         if impl_c != ref_c:
-            ctx.violation("kf_setupcfg_inline_list" if inline else "c14_cfg_names_seen",
+            # predicted by the inline class: a value with several entries on the key line leaves the store without any name
+            pred = inline and m["res"]["names"] == [] and len(m["ref_names"]) >= 2
+            ctx.violation("kf_setupcfg_inline_list" if pred else "c14_cfg_names_seen",
                           f"setup.cfg {text!r}: the store holds names {impl_c}, the file declares {ref_c}", replay)
         if m["res"]["kind"] == 1:
-            ctx.violation("kf_setupcfg_inline_list" if inline and len(m["deps"]) > 1 else "c14_cfg_exception",
-                          f"setup.cfg writer raised {m['res']['exc']} on {text!r} + {m['deps']} (file afterwards {m['after']!r})", replay)
+            # predicted by the inline class exactly where the MODEL raises too (comma branch, >= 2 dependencies to add)
+            pred = inline and "IndexError" in str(m["res"]["exc"]) and i not in set(bad["cfg_model_ok"])
+            ctx.violation("kf_setupcfg_inline_list" if pred else "c14_cfg_exception",
+                          f"setup.cfg writer raised {m['res']['exc']} on {text!r} + {m['deps']} (file afterwards {after!r})", replay)
         if i in spec_bad:
             if "\r" in text and i not in modnl_bad:
-                ctx.violation("kf_manifest_crlf", f"setup.cfg with CRLF line endings {text!r} rewritten as {m['after']!r}: line endings converted to LF", replay)
+                ctx.violation("kf_manifest_crlf", f"setup.cfg with CRLF line endings {text!r} rewritten as {after!r}: line endings converted to LF", replay)
             elif explained in ("kf_setupcfg_dupline", "kf_setupcfg_no_final_newline"):
-                ctx.violation(explained, f"setup.cfg {text!r} + {m['deps']} became {m['after']!r}: new requirement lines are not "
+                ctx.violation(explained, f"setup.cfg {text!r} + {m['deps']} became {after!r}: new requirement lines are not "
                               "inserted (alone) after the last install_requires line", replay)
-            elif other_spelling(m["deps"], m["res"]["names"], m["after"]):
+            elif other_spelling(m["deps"], m["res"]["names"], after):
                 ctx.violation("kf_has_requirement_exact_name", f"setup.cfg {text!r} declares {m['res']['names']} and still received "
-                              f"{m['deps']}: {m['after']!r} (has_requirement compares raw names)", replay)
-            elif inline:
-                ctx.violation("kf_setupcfg_inline_list", f"setup.cfg {text!r} + {m['deps']} became {m['after']!r} (kind {m['res']['kind']}): "
+                              f"{m['deps']}: {after!r} (has_requirement compares raw names)", replay)
+            elif explained == "kf_setupcfg_inline_list":
+                ctx.violation(explained, f"setup.cfg {text!r} + {m['deps']} became {after!r} (kind {m['res']['kind']}): "
                               "the inline install_requires value is not read as a list of requirements", replay)
             else:
-                ctx.violation("c14_cfg_spec", f"setup.cfg {text!r} + {m['deps']} (dry_run={m['dry']}) became {m['after']!r} (kind {m['res']['kind']}): "
+                ctx.violation("c14_cfg_spec", f"setup.cfg {text!r} + {m['deps']} (dry_run={m['dry']}) became {after!r} (kind {m['res']['kind']}): "
                               "not 'new lines with the list's indentation right after the last install_requires line, rest untouched'", replay)
         if m["res"]["kind"] == 2 and not m["dry"]:
-            complaints = reparse_spec("setup.cfg", text, m["after"], m["deps"])
+            complaints = reparse_spec("setup.cfg", text, after, m["deps"])
             if complaints:
-                ctx.violation(explained or "c14_cfg_reparse", f"setup.cfg {text!r} -> {m['after']!r}: " + "; ".join(complaints), replay)
-            r2 = second_write(ctx, "setup.cfg", m["after"].encode("utf-8"), deps_from_names(m["dep_keys"]))
-            if r2 is not None and (r2["kind"] != 0 or r2["after"] != m["after"].encode("utf-8")):
-                ctx.violation(explained or "c14_cfg_second_run", f"second write on {m['after']!r} changed it again to {r2['after']!r}", replay)
+                ctx.violation(explained or "c14_cfg_reparse", f"setup.cfg {text!r} -> {after!r}: " + "; ".join(complaints), replay)
+            r2 = second_write(ctx, "setup.cfg", after.encode("utf-8"), deps_from_names(m["dep_keys"]))
+            if r2 is not None and (r2["kind"] != 0 or r2["after"] != after.encode("utf-8")):
+                # predicted second-run behaviour of the class: the same surgery once more (inline: `,, dep,` again; dupline: again after the earlier line)
+                ctx.violation(explained or "c14_cfg_second_run", f"second write on {after!r} changed it again to {r2['after']!r}", replay)
         if m["dry"] and m["after"] != text:
             ctx.violation("c14_dry_run_writes", f"dry_run changed setup.cfg {text!r} into {m['after']!r}", replay)
 
@@ -1044,6 +1055,173 @@ def part_loop(ctx, n):
 
 
 # ------------------------------------------------------------------------------------------------
+# part 1d: SEVERAL codemods of one run over the shared package stores (REVIEW_B item 16)
+# ------------------------------------------------------------------------------------------------
+PROBE_DEP = None
+
+
+def probe_dep():
+    global PROBE_DEP
+    if PROBE_DEP is None:
+        I = impl()
+        PROBE_DEP = I["Dependency"](Requirement("zzz-verif-probe==1.0"), description="probe", _license=I["License"]("MIT", "https://x/"),
+                                    oss_link="https://o/", package_link="https://p/")
+    return PROBE_DEP
+
+
+def run_multi(ctx, files: dict, deps_per_codemod: list, dry: bool):
+    """One CodemodExecutionContext (stores parsed once), process_dependencies for codemod 1, 2, ... in order."""
+    I = impl()
+    d = fresh_dir(ctx)
+    core.write_tree(d, files)
+    (d / "app.py").write_text("print(1)\n")
+    # model inputs, asked on fresh COPIES: names each store holds, whether its writer can write at all, what it refuses
+    stores_in, kinds, crashed = [], [], False
+    n_stores = len(I["PythonRepoManager"](d).package_stores)
+    distinct = []
+    for dl in deps_per_codemod:
+        for dep in dl:
+            if all(dep is not x for x in distinct):
+                distinct.append(dep)
+    for i in range(n_stores):
+        answers = {}
+        held = None
+        for dep in [probe_dep()] + distinct:
+            dc = fresh_dir(ctx)
+            shutil.copytree(d, dc, dirs_exist_ok=True)
+            st = I["PythonRepoManager"](dc).package_stores[i]
+            if held is None:
+                held = sorted(r.name for r in st.dependencies)
+                kinds.append(st.type.value)
+            try:
+                answers[id(dep)] = I["DependencyManager"](st, dc).write([dep], True) is not None
+            except Exception:
+                crashed = True
+                answers[id(dep)] = False
+            shutil.rmtree(dc, ignore_errors=True)
+        writable = answers[id(probe_dep())]
+        held_c = {canon(x) for x in held}
+        refused = [dep.requirement.name for dep in distinct
+                   if writable and not answers[id(dep)] and canon(dep.requirement.name) not in held_c]
+        stores_in.append((held, writable, refused))
+    c = I["CodemodExecutionContext"](d, dry, False, None, None, I["PythonRepoManager"](d), [], [])
+    observed, steps, exc = [], [], None
+    snap = {rel: (d / rel).read_text() for rel in files}
+    for k, dl in enumerate(deps_per_codemod):
+        class Stub:
+            id = f"pixee:python/verif-stub-{k}"
+            description = "STUB DESCRIPTION."
+        if dl:
+            c.add_dependencies(Stub.id, set(dl))
+        try:
+            c.process_dependencies(Stub.id)
+        except Exception as e:
+            exc = repr(e)
+            break
+        stores = c.repo_manager.package_stores
+        rels = [str(Path(s.file).relative_to(d)) for s in stores]
+        now = {rel: (d / rel).read_text() for rel in files}
+        changed = [rel for rel in files if snap[rel] != now[rel]]
+        cs_paths = [x.path for x in c.get_changesets(Stub.id)]
+        desc = c.add_description(Stub)
+        upd = c._dependency_update_by_codemod.get(Stub.id)
+        upd_idx = next((i for i, s in enumerate(stores) if s is upd), None)
+        note = note_of(desc, {"upd_idx": upd_idx, "kinds": kinds})
+        idx = sorted(rels.index(p) for p in (cs_paths if dry else changed) if p in rels)
+        observed.append((idx, note))
+        steps.append({"deps": [str(x.requirement) for x in dl], "changed": changed, "changesets": cs_paths, "note": note,
+                      "before": snap, "after": now, "rels": rels})
+        snap = now
+    shutil.rmtree(d, ignore_errors=True)
+    return {"stores": stores_in, "kinds": kinds, "observed": observed, "steps": steps, "exc": exc, "probe_crashed": crashed}
+
+
+def c_store(s):
+    held, writable, refused = s
+    return cpair(clist([cstr(x) for x in held], "str"), cbool(writable), clist([cstr(x) for x in refused], "str"))
+
+
+def part_run(ctx, n):
+    rng = ctx.rng
+    pool = dep_pool()
+    cases = []
+    for fname, body in load_corpus("run"):
+        cases.append((f"corpus:{fname}", body["files"], body["codemods"], bool(body.get("dry_run", False)), {"corpus"}))
+    for i in range(n):
+        k1 = rng.choice(["security", "defusedxml", "flask-wtf", "fickling"])
+        files, tags = gen_project(rng, dep_tuple(pool[k1]))
+        shape = rng.random()
+        if shape < 0.55:
+            cms = [[k1], [k1]]                       # two codemods, same package (url-sandbox + sandbox-process-creation)
+        elif shape < 0.75:
+            k2 = rng.choice(["security", "defusedxml", "fickling", "Security>=2"])
+            cms = [[k1], [k2], [k1]]
+        elif shape < 0.9:
+            cms = [[k1], [], [rng.choice(["security", "defusedxml"])]]
+        else:
+            cms = [[k1], [rng.choice(["Security>=2", "FOO", "bar"])]]
+        cases.append(("gen", files, cms, rng.random() < 0.15, tags | {f"codemods:{len(cms)}"}))
+    coq_cases, meta = [], []
+    for desc, files, cms, dry, tags in cases:
+        deps_per = [[pool[k] for k in dl] for dl in cms]
+        res = run_multi(ctx, files, deps_per, dry)
+        for t in tags:
+            ctx.count("run:" + t)
+        replay = {"kind": "run", "files": files, "codemods": cms, "dry_run": dry}
+        if res["exc"] or res["probe_crashed"]:
+            ctx.violation("c14_loop_exception", f"process_dependencies raised {res['exc']} in a run of codemods {cms} over {files}", replay)
+            continue
+        coq_cases.append(cpair(clist([c_store(s) for s in res["stores"]], "list str * bool * list str"),
+                               clist([c_deps([dep_tuple(x) for x in dl]) for dl in deps_per], "list (str * str)"),
+                               clist([cpair(clist([cN(i) for i in idx], "N"), cN(note)) for idx, note in res["observed"]], "list N * N")))
+        meta.append((files, cms, dry, res, replay))
+        ctx.count(f"run_stores:{len(res['stores'])}")
+        ctx.case({"manifests": files, "codemods": cms, "dry_run": dry, "observed (changed store indices, note)": res["observed"]},
+                 nontrivial_key=("run", json.dumps(files, sort_keys=True), json.dumps(cms), dry) if res["stores"] else None,
+                 sample=len(res["stores"]) >= 2 and len(ctx.samples) < 6)
+    bad = par_eval(ctx, "c14_run", "run_case", coq_cases, ["run_model_ok", "run_spec_ok"], chunk=80)
+    for i in bad["run_model_ok"]:
+        files, cms, dry, res, replay = meta[i]
+        ctx.mismatch("process_dependencies over several codemods vs Model.Manifest.run_codemods",
+                     f"stores {list(zip(res['kinds'], res['stores']))}, codemods {cms}: observed {res['observed']}", replay)
+    for i in bad["run_spec_ok"]:
+        files, cms, dry, res, replay = meta[i]
+        # classify by what was OBSERVED, codemod by codemod, with the project-wide declared names threaded through
+        seen = {canon(x) for s in res["stores"] for x in s[0]}
+        reported = False
+        written_where = {}
+        for k, (dl, (idx, note), step) in enumerate(zip(cms, res["observed"], res["steps"])):
+            names = []
+            for x in dl:
+                nm = canon(dep_pool()[x].requirement.name)
+                if nm not in names:
+                    names.append(nm)
+            needed = [nm for nm in names if nm not in seen]
+            if dl and not needed:
+                holders = [j for j, s in enumerate(res["stores"]) if any(canon(x) in names for x in s[0])]
+                earlier = [j for nm in names for j in written_where.get(nm, [])]     # stores that received THIS package earlier in the run
+                if idx:
+                    elsewhere = bool(holders + earlier) and not any(j in holders + earlier for j in idx)
+                    ctx.violation("kf_declared_elsewhere_fallthrough" if elsewhere else "c14_declared_added_again",
+                                  f"codemod #{k + 1} needs {step['deps']} which the project already declares (stores holding it: {holders}, "
+                                  f"written earlier in this run to: {earlier}); manifest(s) {step['changed'] or step['changesets']} received it again", replay)
+                    reported = True
+                elif note == 1:
+                    ctx.violation("kf_declared_reported_as_failed",
+                                  f"codemod #{k + 1} needs {step['deps']} which is declared (held by stores {holders}, written earlier in this run to "
+                                  f"{earlier}); nothing had to change, yet its description says the dependency could not be added", replay)
+                    reported = True
+            elif dl:
+                if idx:
+                    seen |= set(needed)
+                    for nm in needed:
+                        written_where.setdefault(nm, []).extend(idx)
+        if not reported:
+            ctx.violation("c14_run_spec", f"stores {list(zip(res['kinds'], res['stores']))}, codemods {cms}: observed {res['observed']} is not "
+                          "'first able manifest once per package per run; declared => untouched and no failed notice'", replay)
+
+
+# ------------------------------------------------------------------------------------------------
 # part 2: the real CLI
 # ------------------------------------------------------------------------------------------------
 CODEMODS = {
@@ -1087,6 +1265,61 @@ def cli_case(ctx, idx, files, codemod, dry):
             "r2": r2, "rep2": rep2, "src_changed": src_changed, "srcname": srcname}
 
 
+TWO_CODEMODS = "pixee:python/url-sandbox,pixee:python/sandbox-process-creation"     # both need `security`
+TWO_SOURCES = {"a.py": CODEMODS["pixee:python/url-sandbox"][2],
+               "c.py": "import subprocess\n\n\ndef run(cmd):\n    subprocess.run(cmd, shell=True)\n"}
+TWO_PROJECTS = [
+    {"pyproject.toml": "[project]\nname = \"x\"\nversion = \"1\"\ndependencies = [\n  \"foo\",\n]\n", "requirements.txt": "foo==1.0\n"},
+    {"requirements.txt": "foo==1.0\n"},
+]
+
+
+def cli_two_codemods(ctx, idx, files):
+    """ONE run of the real CLI with two codemods that need the same package."""
+    root = ctx.scratch / f"cli2_{idx}" / "proj"
+    root.mkdir(parents=True)
+    core.write_tree(root, files)
+    core.write_tree(root, TWO_SOURCES)
+    out = root.parent / "out.json"
+    r = core.run_cli([str(root), "--output", str(out), "--codemod-include", TWO_CODEMODS], cwd=str(root.parent))
+    rep = json.loads(out.read_text()) if out.exists() else None
+    after = {rel: (root / rel).read_text() for rel in files}
+    return {"files": files, "r": r, "rep": rep, "after": after}
+
+
+def judge_two_codemods(ctx, results):
+    for res in results:
+        ctx.cli_runs += 1
+        files, r, rep = res["files"], res["r"], res["rep"]
+        replay = {"kind": "cli2", "files": files}
+        if r["rc"] == -9:
+            ctx.mismatch("CLI scenario (two codemods)", "timed out (machine load, not a verdict)", replay)
+            continue
+        if r["rc"] != 0 or rep is None:
+            ctx.violation("c14_cli_failed", f"run of {TWO_CODEMODS} over {sorted(files)} exited {r['rc']}: {r['stderr'][-300:]}", replay)
+            continue
+        per = {x["codemod"]: x for x in rep["results"]}
+        fired = [cm for cm in TWO_CODEMODS.split(",") if cm in per and any(c["path"] in TWO_SOURCES for c in per[cm]["changeset"])]
+        if len(fired) != 2:
+            ctx.mismatch("CLI scenario (two codemods)", f"only {fired} changed their source file: the scenario no longer triggers both codemods", replay)
+            continue
+        ctx.count("cli2:manifests:" + "+".join(sorted(files)))
+        total = declared_count(res["after"], "security")
+        got = [rel for rel in files if res["after"][rel] != files[rel]]
+        ctx.case({"cli": TWO_CODEMODS, "manifests": files, "after": res["after"]}, nontrivial_key=("cli2", json.dumps(files, sort_keys=True)), sample=False)
+        if total != 1:
+            cls = "kf_declared_elsewhere_fallthrough" if (total == len(got) and len(got) > 1) else "c14_new_requirement_count"
+            ctx.violation(cls, f"one run of {TWO_CODEMODS}: `security` is declared {total}x afterwards, in {got}: the second codemod found it declared "
+                          f"in the first manifest (answer None) and the next manifest received it too: {res['after']}", replay)
+        for k, cm in enumerate(TWO_CODEMODS.split(",")):
+            d = per[cm]["description"]
+            mans = [c["path"] for c in per[cm]["changeset"] if c["path"].rsplit("/", 1)[-1] in KIND_OF]
+            if not mans and "we were unable to automatically add the dependency" in d and total >= 1:
+                ctx.violation("kf_declared_reported_as_failed", f"{cm} (codemod #{k + 1} of the run) needs `security`, which an earlier codemod of the same run "
+                              f"added ({got}); nothing had to change, yet its description says the dependency could not be added", replay)
+
+
+
 def prepare_cli(ctx, n):
     rng = ctx.rng
     jobs = []
@@ -1110,7 +1343,9 @@ def prepare_cli(ctx, n):
 
 def run_cli_jobs(ctx, jobs):
     with ThreadPoolExecutor(max_workers=min(10, core.NCPU)) as ex:
-        return list(ex.map(lambda a: cli_case(ctx, a[0], a[1][0], a[1][1], a[1][2]), enumerate(jobs)))
+        two = [ex.submit(cli_two_codemods, ctx, i, f) for i, f in enumerate(TWO_PROJECTS)]
+        one = list(ex.map(lambda a: cli_case(ctx, a[0], a[1][0], a[1][1], a[1][2]), enumerate(jobs)))
+        return one, [f.result() for f in two]
 
 
 def judge_cli(ctx, jobs, results):
@@ -1125,6 +1360,9 @@ def judge_cli(ctx, jobs, results):
         r1, rep1 = res["r1"], res["rep1"]
         if (r1["rc"] != 0 or rep1 is None) and "IndexError" in r1["stderr"] and poetry_declares(files, key):
             ctx.violation("c14_poetry_declared_crash", f"run over {files} aborted (exit {r1['rc']}, no report): {r1['stderr'][-300:]}", replay)
+            continue
+        if r1["rc"] == -9:
+            ctx.mismatch("CLI scenario", f"run over {sorted(files)} timed out (harness/machine load, not a verdict)", replay)
             continue
         if r1["rc"] != 0 or rep1 is None:
             ctx.violation("c14_cli_failed", f"run with manifests {sorted(files)} exited {r1['rc']}: {r1['stderr'][-400:]}", replay)
@@ -1148,8 +1386,13 @@ def judge_cli(ctx, jobs, results):
             acts = [a for c in result["changeset"] if c["path"] == man_cs[0] for ch in c["changes"] for a in (ch.get("packageActions") or [])]
             if [a["package"] for a in acts] != [str(dep.requirement)] or any(a["action"] != "add" or a["result"] != "completed" for a in acts):
                 ctx.violation("c14_package_actions", f"package actions {acts} for {dep.requirement}", replay)
-        elif not failed_note:
-            ctx.violation("c14_notification", "no manifest updated but the description carries no failed-dependency notification", replay)
+        else:
+            cb0 = declared_count(res["before"], key)
+            if cb0 == 0 and not failed_note:
+                ctx.violation("c14_notification", "no manifest could be updated but the description carries no failed-dependency notification", replay)
+            elif cb0 and failed_note:
+                ctx.violation("kf_declared_reported_as_failed", f"{key!r} is declared in {sorted(files)} and nothing had to change, yet the description of "
+                              f"{codemod} says the dependency could not be added", replay)
         if dry:
             if changed or res["src_changed"]:
                 ctx.violation("c14_dry_run_writes", f"--dry-run changed {changed}", replay)
@@ -1219,9 +1462,11 @@ def run(ctx: core.Ctx):
         part_cfg(ctx, (220 if quick else 2000) * mult)
         t2 = time.time()
         part_loop(ctx, (160 if quick else 1500) * mult)
+        part_run(ctx, (90 if quick else 900) * mult)
         t3 = time.time()
-        results = fut.result()
+        results, results2 = fut.result()
     judge_cli(ctx, cli_jobs, results)
+    judge_two_codemods(ctx, results2)
     ctx.notes.append(f"wall: requirements.txt {t1 - t0:.0f}s, setup.cfg {t2 - t1:.0f}s, process_dependencies {t3 - t2:.0f}s, "
                      f"CLI (overlapped) done at {time.time() - t0:.0f}s")
 
@@ -1249,6 +1494,20 @@ def replay(ctx, body):
               "| exception:", res["exc"], "(probe crashed)" if res["probe_crashed"] else "")
         for rel in res["changed"]:
             print(rel, ":", repr(res["before"][rel]), "->", repr(res["after"][rel]))
+    elif kind == "run":
+        res = run_multi(ctx, body["files"], [[dep_pool()[k] for k in dl] for dl in body["codemods"]], bool(body.get("dry_run")))
+        print("stores (names held, writable, refused):", list(zip(res["kinds"], res["stores"])), "| exception:", res["exc"])
+        for k, st in enumerate(res["steps"]):
+            print(f"codemod #{k + 1} needs {st['deps']}: changed {st['changed']}, changesets {st['changesets']}, notification",
+                  {0: "none", 1: "FAILED to add"}.get(st["note"], f"added to store {st['note'] - 2}"))
+            for rel in st["changed"]:
+                print("   ", rel, ":", repr(st["before"][rel]), "->", repr(st["after"][rel]))
+    elif kind == "cli2":
+        res = cli_two_codemods(ctx, 0, body["files"])
+        print("exit:", res["r"]["rc"], "| manifests before:", body["files"], "| after ONE run of", TWO_CODEMODS, ":", res["after"])
+        for x in (res["rep"] or {}).get("results", []):
+            print(x["codemod"], [c["path"] for c in x["changeset"]],
+                  "FAILED-notice" if "unable to automatically add" in x["description"] else "added-notice" if "automatically added" in x["description"] else "no notice")
     elif kind == "cli":
         res = cli_case(ctx, 0, body["files"], body["codemod"], bool(body.get("dry_run")))
         print("exit:", res["r1"]["rc"], "manifests before:", res["before"], "after run 1:", res["mid"], "after run 2:", res["after"])
